@@ -316,6 +316,54 @@ func lSelectOk(k int) string {
 	}
 }
 """, ["println(\"select-recv-commaok\", lSelectOk(0), lSelectOk(1), lSelectOk(2))"]),
+    ("float-const", """@CF@
+func lFloatConst(r float64) (float64, float32, bool) {
+	const tau = 6.283185307179586476925286766559
+	area := r * r * 3.14159265358979323846264338327950288
+	small := float32(r) * 0.1234567891
+	return area + tau, small, area > 3.1415926535
+}
+""", ["{ a, b, c := lFloatConst(1); println(\"float-const\", int64(a*1e12), int64(float64(b)*1e9), c) }"]),
+    ("typed-const-iface", """@CF@
+func lTypedConst(k int) string {
+	var v any
+	switch k {
+	case 0:
+		v = uint16(7)
+	case 1:
+		v = int64(30)
+	case 2:
+		v = float32(1.5)
+	case 3:
+		v = 2.0
+	case 4:
+		v = 'x'
+	default:
+		v = uintptr(9)
+	}
+	switch x := v.(type) {
+	case uint16:
+		return "uint16"
+	case int64:
+		if v == any(int64(30)) {
+			return "int64-eq"
+		}
+		return "int64"
+	case float32:
+		return "float32"
+	case float64:
+		return "float64"
+	case int32:
+		return "rune"
+	case uintptr:
+		return "uintptr"
+	case int:
+		_ = x
+		return "int"
+	}
+	return "other"
+}
+""", ["println(\"typed-const-iface\", lTypedConst(0), lTypedConst(1), lTypedConst(2), lTypedConst(3), lTypedConst(4), lTypedConst(5))"]),
     ("select-send", """@CF@
 func lSelectSend(k int) int {
 	c := make(chan int, 1)
